@@ -10,6 +10,8 @@ CONSTANTS
   MaxFail = 1
   MaxCancel = 1
   Policies = {"skip", "put", "drop", "kick"}
+  BadAt = 0
+  AllowInvalid = FALSE
 PROPERTIES
   PublishTerminatesP
   SubscribeTerminates
